@@ -30,18 +30,18 @@ Definition eta_claim (m : mode) (l : log) (idx term_id term_offset len : Z) : ou
   else Panic.
 
 (* ExclusiveTermAppender::append_unfragmented_message *)
-Definition eta_append_unfragmented (m : mode) (rv : Z -> Z -> Z) (l : log) (idx term_id term_offset : Z) (msg : list Z)
+Definition eta_append_unfragmented (m : mode) (rv : Z -> Z -> list Z -> Z) (l : log) (idx term_id term_offset : Z) (msg : list Z)
   : outcome appended :=
   '(fl, al) <- unfrag_lengths m (zlen msg) ;;
   resulting <- add32 m term_offset al ;;
   let l1 := put_raw_tail l idx term_id resulting in
   if l_tlen l <? resulting then Ok (excl_end_of_log l1 idx term_id term_offset)
   else Ok (mkAppended (set_part l1 idx (term_put (part l1 idx) term_offset
-                                          [Committed (data_frame l1 term_offset fl term_id F_UNFRAG T_DATA (rv term_offset fl) msg)]))
+                                          [Committed (data_frame l1 term_offset fl term_id F_UNFRAG T_DATA (rv term_offset fl msg) msg)]))
                       resulting None).
 
 (* ExclusiveTermAppender::append_fragmented_message *)
-Definition eta_append_fragmented (m : mode) (rv : Z -> Z -> Z) (l : log) (idx term_id term_offset : Z) (msg : list Z) (mpl : Z)
+Definition eta_append_fragmented (m : mode) (rv : Z -> Z -> list Z -> Z) (l : log) (idx term_id term_offset : Z) (msg : list Z) (mpl : Z)
   : outcome appended :=
   let len := zlen msg in
   required <- frag_required m len mpl ;;
@@ -53,7 +53,7 @@ Definition eta_append_fragmented (m : mode) (rv : Z -> Z -> Z) (l : log) (idx te
     Ok (mkAppended (set_part l1 idx (term_put (part l1 idx) term_offset frames)) resulting None).
 
 (* ExclusiveTermAppender::append_unfragmented_message_bulk (repaired) *)
-Definition eta_append_unfragmented_bulk (m : mode) (rv : Z -> Z -> Z) (l : log) (idx term_id term_offset : Z)
+Definition eta_append_unfragmented_bulk (m : mode) (rv : Z -> Z -> list Z -> Z) (l : log) (idx term_id term_offset : Z)
                                         (bufs : list (list Z)) (len : Z) : outcome appended :=
   '(fl, al) <- unfrag_lengths m len ;;
   resulting <- add32 m term_offset al ;;
@@ -65,7 +65,7 @@ Definition eta_append_unfragmented_bulk (m : mode) (rv : Z -> Z -> Z) (l : log) 
     | Some body =>
         if zlen body =? len then
           Ok (mkAppended (set_part l1 idx (term_put (part l1 idx) term_offset
-                                             [Committed (data_frame l1 term_offset fl term_id F_UNFRAG T_DATA (rv term_offset fl) body)]))
+                                             [Committed (data_frame l1 term_offset fl term_id F_UNFRAG T_DATA (rv term_offset fl body) body)]))
                          resulting None)
         else Crash
     | None => Crash
